@@ -148,6 +148,7 @@ func runProbes() {
 	probes = append(probes, pairProbe(idEvalBigNum, []string{"EVAL", "return 1e300", "0"}), pairProbe(idEvalBigNum, []string{"EVAL", "return {-1e19, 2^63}", "0"}),
 		pairProbe(idEvalErrOK, []string{"EVAL", "return tile38.error_reply('bad')", "0"}), pairProbe(idEvalErrOK, []string{"EVAL", "return tile38.call", "0"}))
 	// both are repaired (ee99fc4, 1823414): plain regression probes, nothing is excluded
+	probes = append(probes, mvtProbe())
 	probes = append(probes, crashProbe(idCrashNearbyBuffer, [][]string{{"SET", "k", "a", "POINT", "1", "2"}, {"NEARBY", "k", "BUFFER", "1", "POINT", "1", "2"}}))
 	exclNearbyBuffer = probes[len(probes)-1].reproduces
 	exclNonFinite = excl.nonFinite
@@ -259,7 +260,11 @@ func TestC17_Probes(t *testing.T) {
 		} else {
 			prog := program{State: "empty"}
 			for _, cmd := range p.cmds {
-				prog.Steps = append(prog.Steps, mkStep(cmd, "c-json", "", "probe"))
+				lane := "c-json"
+				if p.id == idHTTPMVT {
+					lane = "httpget" // replayed as GET /key/z/x/y.mvt
+				}
+				prog.Steps = append(prog.Steps, mkStep(cmd, lane, "", "probe"))
 			}
 			c.Violation(p.id, p.what, prog)
 			t.Logf("VIOLATION-CANDIDATE key=%s: %s", p.id, p.what)
